@@ -24,6 +24,7 @@ definitions and bridge theorems are used here.
   `chunk_cmds_bridge`, `plan_write_bridge`: the UPDATE BINARY plan of `Model/T4.lean` (C01 part t34);
 * `gen_*`: statements of C12 / C08 restated for the regenerated functions.
 -/
+/-! VARIANT for a tree with fixes/C08/0010-0012 applied (see `harness/fnspecs/_alt_isosm_c08fix/README`). -/
 namespace NfcVerif.FnBridge.IsoSm
 open NfcVerif NfcVerif.PyFn NfcVerif.IsoDep NfcVerif.IsoSmRef
 
@@ -104,34 +105,84 @@ theorem protocol_handlers_bridge :
 
 variable {σ : Type} (P : Peer σ)
 
-theorem xchgW_bridge : ∀ (f : Nat) (w : World σ) (out : Bytes), xchgW P f w out = xchgWGen P f w out := by
+/-- the body of the S(WTX) loop on a block that passed the S(WTX) test: WTXM range, sum, limit (`IsoDepR.xchgW`) -/
+theorem wtx_step_bridge (a b : Nat) (t : Bytes) (sum lim : Nat) :
+    Gen.Fn.iso_wtx_step (a :: b :: t) (sum : Int) (lim : Int)
+      = if b &&& 0x3F = 0 ∨ b &&& 0x3F > 59 then .error .protocol
+        else if sum + (b &&& 0x3F) > lim then .error (.tagCmd TIMEOUT_ERROR)
+        else .ok (((b &&& 0x3F : Nat) : Int), ((sum + (b &&& 0x3F) : Nat) : Int)) := by
+  unfold Gen.Fn.iso_wtx_step TIMEOUT_ERROR
+  rw [getB_one, getB_zero]
+  simp only [Py.bind_ok]
+  rw [show (63 : Int) = ((63 : Nat) : Int) from rfl, band_ofNat]
+  have e1 : ((((b &&& 63 : Nat) : Int) = 0) ∨ (((b &&& 63 : Nat) : Int) > 59)) ↔ (b &&& 63 = 0 ∨ b &&& 63 > 59) := by omega
+  have e2 : (((sum : Int) + ((b &&& 63 : Nat) : Int)) > (lim : Int)) ↔ (sum + (b &&& 63) > lim) := by omega
+  simp only [e1, e2]
+  split
+  · rfl
+  · split <;> rfl
+
+theorem wtxmOf_eq (d : Bytes) :
+    IsoDepR.wtxmOf d = if isWtx d = true then (match d with | _ :: b :: _ => some (b &&& 0x3F) | _ => none) else none := by
+  unfold IsoDepR.wtxmOf isWtx
+  match d with
+  | [] => rfl
+  | [a] => rfl
+  | a :: b :: t =>
+    simp only [beq_iff_eq]
+
+theorem xchgW_bridge (lim : Nat) : ∀ (f sum : Nat) (w : World σ) (out : Bytes),
+    IsoDepR.xchgW P (some lim) f sum w out = xchgWGen P lim f sum w out := by
   intro f
   induction f with
-  | zero => intro w out; rfl
+  | zero => intro sum w out; rfl
   | succ f ih =>
-    intro w out
-    simp only [xchgW, xchgWGen]
-    cases h : (w.xchg P out).2 with
+    intro sum w out
+    simp only [IsoDepR.xchgW, xchgWGen]
+    rcases w.xchg P out with ⟨w', r⟩
+    cases r with
     | data d =>
-      simp only [wtx_test_bridge]
+      simp only [wtx_test_bridge, wtxmOf_eq]
       cases hw : isWtx d
       · rfl
-      · simp only [if_true, ih]
-    | _ => rfl
+      · match d, hw with
+        | a :: b :: t, _ =>
+          simp only [if_true, wtx_step_bridge]
+          by_cases h1 : b &&& 0x3F = 0 ∨ b &&& 0x3F > 59
+          · simp only [h1, if_true]
+          · rw [if_neg h1, if_neg h1]
+            by_cases h2 : sum + (b &&& 0x3F) > lim
+            · simp only [h2, if_true, TIMEOUT_ERROR]
+            · rw [if_neg h2, if_neg h2]
+              simp only [Int.toNat_natCast, ih]
+    | timeout => rfl
+    | transmission => rfl
+    | protocol => rfl
+    | fuel => rfl
 
-theorem cmd_loop_bridge (F n pni : Nat) (hp : pni < 2) (pfb cmd : Bytes) (offset miu : Int) (req : Bytes)
+/-- a retransmission after R(ACK) counts against the retry limit: it is made while `i <= n_retry_nak + 1` -/
+theorem resend_budget_bridge (i n : Nat) :
+    Gen.Fn.iso_resend_budget (i : Int) (n : Int) = if i > n + 1 then .error (.tagCmd PROTOCOL_ERROR) else .ok () := by
+  unfold Gen.Fn.iso_resend_budget PROTOCOL_ERROR
+  have e : ((i : Int) > (n : Int) + 1) ↔ i > n + 1 := by omega
+  simp only [e]
+
+theorem cmd_loop_bridge (c : IsoDepR.Cfg) (hw : c.fx.wtx = true) (ha : c.fx.ack = true) (n pni : Nat) (hp : pni < 2)
+    (pfb cmd : Bytes) (offset miu : Int) (req : Bytes)
     (hreq : req = Gen.Fn.iso_resend_blk pfb cmd offset miu) :
     ∀ (f i : Nat) (out : Bytes) (w : World σ),
-      blockLoop P F n (some (0xA2 ||| ((pni + 1) % 2))) req [0xB2 ||| pni] f i out w
-        = cmdLoopGen P F n pni pfb cmd offset miu f i out w := by
+      IsoDepR.blockLoop P c n (some (0xA2 ||| ((pni + 1) % 2))) req [0xB2 ||| pni] f i out w
+        = cmdLoopGen P c.lim c.F n pni pfb cmd offset miu f i out w := by
   subst hreq
+  have hl : c.wlim = some c.lim := by simp [IsoDepR.Cfg.wlim, hw]
   intro f
   induction f with
   | zero => intro i out w; rfl
   | succ f ih =>
     intro i out w
-    simp only [blockLoop, cmdLoopGen, ← xchgW_bridge]
-    cases h : (xchgW P F w out).2 with
+    simp only [IsoDepR.blockLoop, cmdLoopGen, hl, ← xchgW_bridge]
+    rcases IsoDepR.xchgW P (some c.lim) c.F 0 w out with ⟨w', r⟩
+    cases r with
     | data d =>
       cases d with
       | nil =>
@@ -140,12 +191,16 @@ theorem cmd_loop_bridge (F n pni : Nat) (hp : pni < 2) (pfb cmd : Bytes) (offset
         · simp only [hi, if_true, ih]
         · simp only [hi, if_false]
       | cons a t =>
-        simp only [rxTry, Py.bind_ok, (empty_chk_bridge (a :: t)).1, reduceCtorEq, if_false, resend_test_bridge a t pni hp]
-        by_cases ha : a = 0xA2 ||| ((pni + 1) % 2)
-        · simp only [ha, decide_true, if_true, ih]
+        simp only [rxTry, Py.bind_ok, (empty_chk_bridge (a :: t)).1, reduceCtorEq, if_false, resend_test_bridge a t pni hp,
+          resend_budget_bridge, ha, true_and]
+        by_cases hx : a = 0xA2 ||| ((pni + 1) % 2)
+        · simp only [hx, decide_true, if_true]
+          by_cases hi : i > n + 1
+          · simp only [hi, if_true, Py.bind_error]
+          · simp only [hi, if_false, Py.bind_ok, ih]
         · have : ¬ (some (0xA2 ||| ((pni + 1) % 2)) = some a) := by
-            intro x; injection x with x; exact ha x.symm
-          simp only [this, ha, decide_false, if_false]
+            intro x; injection x with x; exact hx x.symm
+          simp only [this, hx, decide_false, if_false, Bool.false_eq_true]
     | timeout =>
       simp only [rxTry, Py.bind_error, (nak_handlers_bridge i n pni hp).2]
       by_cases hi : i ≤ n
@@ -158,18 +213,20 @@ theorem cmd_loop_bridge (F n pni : Nat) (hp : pni < 2) (pfb cmd : Bytes) (offset
       · simp only [hi, if_false]
     | protocol => simp only [rxTry, Py.bind_error, protocol_handlers_bridge.1]
     | fuel => rfl
+    | waited => rfl
 
-
-theorem rsp_loop_bridge (F n pni : Nat) (hp : pni < 2) :
+theorem rsp_loop_bridge (c : IsoDepR.Cfg) (hw : c.fx.wtx = true) (n pni : Nat) (hp : pni < 2) :
     ∀ (f i : Nat) (out : Bytes) (w : World σ),
-      blockLoop P F n none [0xA2 ||| pni] [0xA2 ||| pni] f i out w = rspLoopGen P F n pni f i out w := by
+      IsoDepR.blockLoop P c n none [0xA2 ||| pni] [0xA2 ||| pni] f i out w = rspLoopGen P c.lim c.F n pni f i out w := by
+  have hl : c.wlim = some c.lim := by simp [IsoDepR.Cfg.wlim, hw]
   intro f
   induction f with
   | zero => intro i out w; rfl
   | succ f ih =>
     intro i out w
-    simp only [blockLoop, rspLoopGen, ← xchgW_bridge]
-    cases h : (xchgW P F w out).2 with
+    simp only [IsoDepR.blockLoop, rspLoopGen, hl, ← xchgW_bridge]
+    rcases IsoDepR.xchgW P (some c.lim) c.F 0 w out with ⟨w', r⟩
+    cases r with
     | data d =>
       cases d with
       | nil =>
@@ -191,6 +248,7 @@ theorem rsp_loop_bridge (F n pni : Nat) (hp : pni < 2) :
       · simp only [hi, if_false]
     | protocol => simp only [rxTry, Py.bind_error, protocol_handlers_bridge.2.1]
     | fuel => rfl
+    | waited => rfl
 
 /-! ### the pieces between the retry loops -/
 
@@ -372,10 +430,11 @@ def withResponse {σ} (r : World σ × Nat × Py Bytes) : World σ × Nat × Py 
 theorem chunksAux_ne_nil (miu f : Nat) (l : Bytes) : chunksAux miu (f + 1) l ≠ [] := by
   unfold chunksAux; split <;> simp
 
-theorem send_offsets_aux (F nNak : Nat) (cmd : Bytes) (miu : Nat) (hm : 0 < miu) :
+theorem send_offsets_aux (c : IsoDepR.Cfg) (hw : c.fx.wtx = true) (ha : c.fx.ack = true) (nNak : Nat) (cmd : Bytes) (miu : Nat)
+    (hm : 0 < miu) :
     ∀ (f o pni : Nat) (w : World σ), o < cmd.length → cmd.length - o ≤ f → pni < 2 →
-      sendOffsetsGen P F nNak cmd (miu : Int) ((offsFrom miu cmd.length f o).map (fun (n : Nat) => (n : Int))) pni w
-        = withResponse (sendChunks P F nNak (chunksAux miu f (cmd.drop o)) pni w) := by
+      sendOffsetsGen P c.lim c.F nNak cmd (miu : Int) ((offsFrom miu cmd.length f o).map (fun (n : Nat) => (n : Int))) pni w
+        = withResponse (IsoDepR.sendChunks P c nNak (chunksAux miu f (cmd.drop o)) pni w) := by
   intro f
   induction f with
   | zero => intro o pni w h1 h2; omega
@@ -395,9 +454,9 @@ theorem send_offsets_aux (F nNak : Nat) (cmd : Bytes) (miu : Nat) (hm : 0 < miu)
         | cons _ _ => rfl
       rw [show chunksAux miu (f' + 1 + 1) (cmd.drop o) = (cmd.drop o).take miu :: chunksAux miu (f' + 1) ((cmd.drop o).drop miu) by
         rw [chunksAux, if_neg hlen]]
-      simp only [hmore, and_self, decide_true, if_true, sendChunks, hemp, Bool.not_false]
-      rw [← cmd_loop_bridge P F nNak pni hp [18 ||| pni] cmd o miu _ (resend_blk_bridge _ cmd o miu).symm]
-      rcases blockLoop P F nNak (some (162 ||| (pni + 1) % 2)) ((18 ||| pni) :: List.take miu (List.drop o cmd)) [178 ||| pni] F 1
+      simp only [hmore, and_self, decide_true, if_true, IsoDepR.sendChunks, hemp, Bool.not_false]
+      rw [← cmd_loop_bridge P c hw ha nNak pni hp [18 ||| pni] cmd o miu _ (resend_blk_bridge _ cmd o miu).symm]
+      rcases IsoDepR.blockLoop P c nNak (some (162 ||| (pni + 1) % 2)) ((18 ||| pni) :: List.take miu (List.drop o cmd)) [178 ||| pni] c.F 1
         ((18 ||| pni) :: List.take miu (List.drop o cmd)) w with ⟨w', r⟩
       cases r with
       | error e => rfl
@@ -419,9 +478,9 @@ theorem send_offsets_aux (F nNak : Nat) (cmd : Bytes) (miu : Nat) (hm : 0 < miu)
       have hlen : (cmd.drop o).length ≤ miu := by rw [List.length_drop]; omega
       rw [show chunksAux miu (f + 1) (cmd.drop o) = [cmd.drop o] by rw [chunksAux, if_pos hlen]]
       have htake : (cmd.drop o).take miu = cmd.drop o := List.take_of_length_le hlen
-      simp only [hmore, decide_false, if_false, Bool.false_eq_true, sendChunks, List.isEmpty_nil, Bool.not_true, htake]
-      rw [← cmd_loop_bridge P F nNak pni hp [2 ||| pni] cmd o miu _ (by rw [resend_blk_bridge, htake])]
-      rcases blockLoop P F nNak (some (162 ||| (pni + 1) % 2)) ((2 ||| pni) :: List.drop o cmd) [178 ||| pni] F 1
+      simp only [hmore, decide_false, if_false, Bool.false_eq_true, IsoDepR.sendChunks, List.isEmpty_nil, Bool.not_true, htake]
+      rw [← cmd_loop_bridge P c hw ha nNak pni hp [2 ||| pni] cmd o miu _ (by rw [resend_blk_bridge, htake])]
+      rcases IsoDepR.blockLoop P c nNak (some (162 ||| (pni + 1) % 2)) ((2 ||| pni) :: List.drop o cmd) [178 ||| pni] c.F 1
         ((2 ||| pni) :: List.drop o cmd) w with ⟨w', r⟩
       cases r with
       | error e => rfl
@@ -439,47 +498,59 @@ theorem send_offsets_aux (F nNak : Nat) (cmd : Bytes) (miu : Nat) (hm : 0 < miu)
             · simp [ha, withResponse]
 
 
-theorem recv_chain_bridge (F nAck : Nat) :
+/-- the chaining check in front of every R(ACK) (`IsoDepR.recvChain`: `inf = [] ∨ resp.length > 65538`) -/
+theorem chain_chk_bridge (a : Nat) (inf resp : Bytes) :
+    Gen.Fn.iso_chain_chk (a :: inf) resp = if inf = [] ∨ resp.length > 65538 then .error (.tagCmd PROTOCOL_ERROR) else .ok () := by
+  unfold Gen.Fn.iso_chain_chk PROTOCOL_ERROR
+  have e1 : (PyFn.len (a :: inf) = 1) ↔ inf = [] := by
+    rw [len_eq]; cases inf <;> simp <;> omega
+  have e2 : (PyFn.len resp > 65538) ↔ resp.length > 65538 := by rw [len_eq]; omega
+  simp only [e1, e2]
+
+theorem recv_chain_bridge (c : IsoDepR.Cfg) (hw : c.fx.wtx = true) (hc : c.fx.chain = true) (nAck : Nat) :
     ∀ (f pni : Nat) (data resp : Bytes) (w : World σ), pni < 2 →
-      recvChain P F nAck f pni data resp w = recvChainGen P F nAck f pni data resp w := by
+      IsoDepR.recvChain P c nAck f pni data resp w = recvChainGen P c.lim c.F nAck f pni data resp w := by
   intro f
   induction f with
   | zero => intro pni data resp w hp; rfl
   | succ f ih =>
     intro pni data resp w hp
-    simp only [recvChain, recvChainGen, chain_test_bridge]
+    simp only [IsoDepR.recvChain, recvChainGen, chain_test_bridge]
     cases data with
     | nil => rfl
     | cons a t =>
       simp only
-      by_cases hc : a &&& 0x10 = 0
-      · simp [hc]
-      · simp only [hc, if_false, ne_eq, not_false_eq_true, decide_true, (ack_blk_bridge pni hp).1,
-          ← rsp_loop_bridge P F nAck pni hp]
-        rcases blockLoop P F nAck none [162 ||| pni] [162 ||| pni] F 1 [162 ||| pni] w with ⟨w', r⟩
-        cases r with
-        | error e => rfl
-        | ok d =>
-          cases d with
-          | nil => simp [(bn_chk_bridge [] pni).2]
-          | cons b t' =>
-            simp only [(bn_chk_bridge (b :: t') pni).2]
-            by_cases hb : b &&& 0x01 ≠ pni
-            · simp only [hb, if_true, ne_eq, not_false_eq_true]
-            · rw [if_neg hb, if_neg hb]
-              simp only [chain_acc_bridge, Int.toNat_natCast]
-              exact ih _ _ _ _ (by omega)
+      by_cases hcb : a &&& 0x10 = 0
+      · simp [hcb]
+      · simp only [hcb, if_false, ne_eq, not_false_eq_true, decide_true, chain_chk_bridge, hc, true_and]
+        by_cases hx : t = [] ∨ resp.length > 65538
+        · simp only [hx, if_true]
+        · rw [if_neg hx, if_neg hx]
+          simp only [(ack_blk_bridge pni hp).1, ← rsp_loop_bridge P c hw nAck pni hp]
+          rcases IsoDepR.blockLoop P c nAck none [162 ||| pni] [162 ||| pni] c.F 1 [162 ||| pni] w with ⟨w', r⟩
+          cases r with
+          | error e => rfl
+          | ok d =>
+            cases d with
+            | nil => simp [(bn_chk_bridge [] pni).2]
+            | cons b t' =>
+              simp only [(bn_chk_bridge (b :: t') pni).2]
+              by_cases hb : b &&& 0x01 ≠ pni
+              · simp only [hb, if_true, ne_eq, not_false_eq_true]
+              · rw [if_neg hb, if_neg hb]
+                simp only [chain_acc_bridge, Int.toNat_natCast]
+                exact ih _ _ _ _ (by omega)
 
-theorem sendChunks_pni_lt (F nNak : Nat) :
-    ∀ (cs : List Bytes) (pni : Nat) (w : World σ), pni < 2 → (sendChunks P F nNak cs pni w).2.1 < 2 := by
+theorem sendChunks_pni_lt (c : IsoDepR.Cfg) (nNak : Nat) :
+    ∀ (cs : List Bytes) (pni : Nat) (w : World σ), pni < 2 → (IsoDepR.sendChunks P c nNak cs pni w).2.1 < 2 := by
   intro cs
   induction cs with
   | nil => intro pni w hp; exact hp
-  | cons c rest ih =>
+  | cons ch rest ih =>
     intro pni w hp
-    simp only [sendChunks]
-    rcases blockLoop P F nNak (some (162 ||| (pni + 1) % 2)) (((if (!rest.isEmpty) = true then 18 else 2) ||| pni) :: c) [178 ||| pni] F 1
-      (((if (!rest.isEmpty) = true then 18 else 2) ||| pni) :: c) w with ⟨w', r⟩
+    simp only [IsoDepR.sendChunks]
+    rcases IsoDepR.blockLoop P c nNak (some (162 ||| (pni + 1) % 2)) (((if (!rest.isEmpty) = true then 18 else 2) ||| pni) :: ch) [178 ||| pni] c.F 1
+      (((if (!rest.isEmpty) = true then 18 else 2) ||| pni) :: ch) w with ⟨w', r⟩
     cases r with
     | error e => exact hp
     | ok d =>
@@ -501,9 +572,12 @@ theorem chunks_eq_aux (miu : Nat) (cmd : Bytes) (h : cmd ≠ []) : chunks miu cm
   unfold chunks; rw [if_neg h]
 
 /-- `_exchange_command(command)`; `pcd.pni` is a block number -/
-theorem exchange_cmd_bridge (F : Nat) (pcd : Pcd) (hp : pcd.pni < 2) (cmd : Bytes) (w : World σ) :
-    exchangeCmd P F pcd cmd w = exchangeCmdGen P F pcd cmd w := by
-  unfold exchangeCmd exchangeCmdGen
+theorem exchange_cmd_bridge (c : IsoDepR.Cfg) (hx : c.fx = IsoDepR.Fix.all) (pcd : Pcd) (hp : pcd.pni < 2) (cmd : Bytes) (w : World σ) :
+    IsoDepR.exchangeCmd P c pcd cmd w = exchangeCmdGen P c.lim c.F pcd cmd w := by
+  have hw : c.fx.wtx = true := by rw [hx]; rfl
+  have ha : c.fx.ack = true := by rw [hx]; rfl
+  have hch : c.fx.chain = true := by rw [hx]; rfl
+  unfold IsoDepR.exchangeCmd exchangeCmdGen
   by_cases h0 : pcd.miu = 0
   · simp [h0, Gen.Fn.iso_offsets, PyFn.rangeStep]
   · rw [if_neg h0]
@@ -529,38 +603,38 @@ theorem exchange_cmd_bridge (F : Nat) (pcd : Pcd) (hp : pcd.pni < 2) (cmd : Byte
       rw [hm, offsets_bridge cmd m hm0]
       cases cmd with
       | nil => simp [offsFrom]
-      | cons c cs =>
-        have hne : (c :: cs) ≠ [] := by simp
-        have hnot : ¬ ((m : Int) < 0 ∨ (c :: cs) = []) := by simp
+      | cons c0 cs =>
+        have hne : (c0 :: cs) ≠ [] := by simp
+        have hnot : ¬ ((m : Int) < 0 ∨ (c0 :: cs) = []) := by simp
         rw [if_neg hnot]
-        have hoffs : (offsFrom m (c :: cs).length (c :: cs).length 0).map (fun (n : Nat) => (n : Int))
-            = ((0 : Nat) : Int) :: (offsFrom m (c :: cs).length cs.length (0 + m)).map (fun (n : Nat) => (n : Int)) := by
+        have hoffs : (offsFrom m (c0 :: cs).length (c0 :: cs).length 0).map (fun (n : Nat) => (n : Int))
+            = ((0 : Nat) : Int) :: (offsFrom m (c0 :: cs).length cs.length (0 + m)).map (fun (n : Nat) => (n : Int)) := by
           simp [offsFrom]
-        have haux := send_offsets_aux P F pcd.nNak (c :: cs) m hm0 (c :: cs).length 0 pcd.pni w (by simp) (by simp) hp
-        rw [List.drop_zero, ← chunks_eq_aux m (c :: cs) hne] at haux
+        have haux := send_offsets_aux P c hw ha pcd.nNak (c0 :: cs) m hm0 (c0 :: cs).length 0 pcd.pni w (by simp) (by simp) hp
+        rw [List.drop_zero, ← chunks_eq_aux m (c0 :: cs) hne] at haux
         rw [hoffs] at haux ⊢
         simp only [Int.toNat_natCast]
         rw [haux]
-        rcases hs : sendChunks P F pcd.nNak (chunks m (c :: cs)) pcd.pni w with ⟨w1, pni1, r⟩
+        rcases hs : IsoDepR.sendChunks P c pcd.nNak (chunks m (c0 :: cs)) pcd.pni w with ⟨w1, pni1, r⟩
         cases r with
         | error e => rfl
         | ok d =>
           have hp1 : pni1 < 2 := by
-            have := sendChunks_pni_lt P F pcd.nNak (chunks m (c :: cs)) pcd.pni w hp
+            have := sendChunks_pni_lt P c pcd.nNak (chunks m (c0 :: cs)) pcd.pni w hp
             rw [hs] at this; exact this
-          simp only [withResponse, Py.bind_ok, recv_chain_bridge P F pcd.nAck F pni1 d (d.drop 1) w1 hp1]
+          simp only [withResponse, Py.bind_ok, recv_chain_bridge P c hw hch pcd.nAck c.F pni1 d (d.drop 1) w1 hp1]
 
 
 /-- `IsoDepInitiator.exchange(command)`: the latch test, the command, the latch store; `pcd.pni` is a block number as long
 as no error is latched (`C12.SessInv`) -/
-theorem exchange_bridge (F : Nat) (pcd : Pcd) (hp : pcd.failed = none → pcd.pni < 2) (cmd : Bytes) (w : World σ) :
-    exchange P F pcd cmd w = exchangeGen P F pcd cmd w := by
-  unfold exchange exchangeGen Gen.Fn.iso_latch_chk Gen.Fn.iso_latch_set
+theorem exchange_bridge (c : IsoDepR.Cfg) (hx : c.fx = IsoDepR.Fix.all) (pcd : Pcd) (hp : pcd.failed = none → pcd.pni < 2) (cmd : Bytes)
+    (w : World σ) : IsoDepR.exchange P c pcd cmd w = exchangeGen P c.lim c.F pcd cmd w := by
+  unfold IsoDepR.exchange exchangeGen Gen.Fn.iso_latch_chk Gen.Fn.iso_latch_set
   cases hf : pcd.failed with
   | some e => simp
   | none =>
-    simp only [Option.isSome_none, Bool.false_eq_true, decide_false, if_false, ← exchange_cmd_bridge P F pcd (hp hf)]
-    rcases exchangeCmd P F pcd cmd w with ⟨w', pcd', r⟩
+    simp only [Option.isSome_none, Bool.false_eq_true, decide_false, if_false, ← exchange_cmd_bridge P c hx pcd (hp hf)]
+    rcases IsoDepR.exchangeCmd P c pcd cmd w with ⟨w', pcd', r⟩
     cases r with
     | ok d => rfl
     | error e => cases e <;> rfl
@@ -570,19 +644,6 @@ theorem presence_bridge (pcd : Pcd) (hp : pcd.pni < 2) (w : World σ) : presence
   rw [(ack_blk_bridge pcd.pni hp).2]
   simp only
   cases (w.xchg P [0xB2 ||| pcd.pni]).2 <;> rfl
-
-/-- `Type4Tag.send_apdu`: regenerated APDU build (group T4), regenerated exchange, regenerated status handling -/
-theorem send_apdu_bridge (F : Nat) (pcd : Pcd) (hp : pcd.failed = none → pcd.pni < 2) (ext : Bool) (cla ins p1 p2 : Nat) (data : Bytes) (mrl : Nat)
-    (check : Bool) (w : World σ) :
-    sendApdu P F pcd ext cla ins p1 p2 data mrl check w = sendApduGen P F pcd ext cla ins p1 p2 data mrl check w := by
-  unfold sendApdu sendApduGen
-  rw [FnBridge.T4.apdu_build_bridge]
-  cases encodeApdu ext cla ins p1 p2 data mrl with
-  | error e => rfl
-  | ok apdu =>
-    simp only [← exchange_bridge P F pcd hp, FnBridge.T4.apdu_status_bridge]
-    cases (exchange P F pcd apdu w).2.2 <;> rfl
-
 
 /-! ## the `except` clauses against `Model/Retry.lean` (C16), the error latch -/
 
@@ -621,17 +682,12 @@ theorem latch_bridge (cmd : Option Bytes) (failed : Option Int) (e : Int) :
   unfold Gen.Fn.iso_latch_chk
   cases cmd <;> cases failed <;> simp
 
-/-- the waiting time granted with an S(WTX) response is the reference `wtxTime`; for a block that passed the S(WTX) test
-the expression cannot raise -/
-theorem wtx_time_bridge (d : Bytes) (fwt : Int) (h : isWtx d = true) :
-    ∃ a b t, d = a :: b :: t ∧ Gen.Fn.iso_wtx_time d fwt = .ok (wtxTime b fwt) := by
-  match d, h with
-  | a :: b :: t, _ =>
-    refine ⟨a, b, t, rfl, ?_⟩
-    unfold Gen.Fn.iso_wtx_time wtxTime
-    rw [getB_one, getB_zero]
-    simp only [Py.bind_ok]
-    py_bits
+/-- the waiting time granted with an S(WTX) response is the reference `wtxTime` of the accepted multiplier -/
+theorem wtx_time_bridge (b : Nat) (fwt : Int) :
+    Gen.Fn.iso_wtx_time ((b &&& 0x3F : Nat) : Int) fwt = wtxTime b fwt ∧ Gen.Fn.iso_wtx_sum0 = 0 := by
+  refine ⟨?_, rfl⟩
+  unfold Gen.Fn.iso_wtx_time wtxTime
+  rw [and63]
 
 /-- `IsoDepInitiator.__init__`: block number 0, MIU = FSC - 3, no latched error (`IsoDep.mkPcd`) -/
 theorem init_bridge (fsci fwi maxSend : Nat) :
@@ -1017,36 +1073,18 @@ end write
 
 /-! ## statements of C12 / C08 for the regenerated functions -/
 
-/-- C12 `isodep_at_most_once` for `exchangeGen`: in every session state, under every fault script, the card executes the
-command at most once -/
-theorem gen_at_most_once (cfg : CardCfg) (F : Nat) (pcd : Pcd) (cmd : Bytes) (w : World Card) (hs : C12.SessInv pcd w.card) :
-    (exchangeGen (isoPeer cfg) F pcd cmd w).1.card.log = w.card.log ∨
-    (exchangeGen (isoPeer cfg) F pcd cmd w).1.card.log = w.card.log ++ [cmd] := by
-  rw [← exchange_bridge (isoPeer cfg) F pcd (fun hf => (hs hf).1)]
-  exact C12.isodep_at_most_once cfg F pcd cmd w hs
-
-/-- C12 `isodep_response_exact` for `exchangeGen`: an answer is the answer of the card's application to exactly this
-command -/
-theorem gen_response_exact (cfg : CardCfg) (F : Nat) (pcd : Pcd) (cmd : Bytes) (w : World Card) (hs : C12.SessInv pcd w.card)
-    (x : Bytes) (hx : (exchangeGen (isoPeer cfg) F pcd cmd w).2.2 = .ok x) :
-    x = cfg.app w.card.log.length cmd ∧ (exchangeGen (isoPeer cfg) F pcd cmd w).1.card.log = w.card.log ++ [cmd] := by
-  rw [← exchange_bridge (isoPeer cfg) F pcd (fun hf => (hs hf).1)] at hx ⊢
-  exact C12.isodep_response_exact cfg F pcd cmd w hs x hx
-
-/-- C12 `isodep_refuses_after_error` for `exchangeGen`: once an error is latched no block is sent any more -/
-theorem gen_refuses_after_error {σ : Type} (P : Peer σ) (F : Nat) (pcd : Pcd) (cmd : Bytes) (w : World σ) (e : Int)
-    (h : pcd.failed = some e) : exchangeGen P F pcd cmd w = (w, pcd, .error (.tagCmd e)) := by
-  rw [← exchange_bridge P F pcd (fun hf => by rw [h] at hf; cases hf)]
-  exact C12.isodep_refuses_after_error P F pcd cmd w e h
-
-/-- C12 `isodep_error_kind` for `exchangeGen`: against ANY card the only exceptions are Type4TagCommandError with the
-reasons TIMEOUT / RECEIVE / PROTOCOL_ERROR (or the model's fuel) -/
-theorem gen_error_kind {σ : Type} (P : Peer σ) (F : Nat) (pcd : Pcd) (hp : pcd.failed = none → pcd.pni < 2) (cmd : Bytes)
-    (w : World σ) (hm : 0 < pcd.miu) (hcmd : cmd ≠ []) (hfl : C12.FlagOk pcd) (e : Exc)
-    (h : (exchangeGen P F pcd cmd w).2.2 = .error e) :
-    e = .outOfFuel ∨ e = .tagCmd TIMEOUT_ERROR ∨ e = .tagCmd RECEIVE_ERROR ∨ e = .tagCmd PROTOCOL_ERROR := by
-  rw [← exchange_bridge P F pcd hp] at h
-  exact (C12.isodep_error_kind P F pcd cmd w hm hcmd hfl).1 e h
+/-- C08 `isodep_exchange_safe` for `exchangeGen`: one repaired `IsoDepInitiator.exchange` against EVERY card gives a response
+or a `Type4TagCommandError`, uses up no loop fuel and sends at most `exchFrames` frames -/
+theorem gen_exchange_safe {σ} (P : Peer σ) (c : IsoDepR.Cfg) (pcd : Pcd) (hR : c.Repaired pcd.nNak pcd.nAck)
+    (hp : pcd.failed = none → pcd.pni < 2) (hm : 0 < pcd.miu) (cmd : Bytes) (hc : cmd ≠ []) (w : World σ) :
+    IsoDepR.CmdRes (exchangeGen P c.lim c.F pcd cmd w).2.2 ∧
+    IsoDepR.frames (exchangeGen P c.lim c.F pcd cmd w).1 ≤ IsoDepR.frames w + IsoDepR.exchFrames c pcd cmd.length := by
+  have hx : c.fx = IsoDepR.Fix.all := by
+    have h1 := hR.wtx; have h2 := hR.ack; have h3 := hR.chain
+    cases hfx : c.fx with
+    | mk a b d => rw [hfx] at h1 h2 h3; simp only at h1 h2 h3; subst h1 h2 h3; rfl
+  rw [← exchange_bridge P c hx pcd hp]
+  exact ⟨(C08.isodep_exchange_safe P c pcd hR hm cmd hc w).1, (C08.isodep_exchange_safe P c pcd hR hm cmd hc w).2.2⟩
 
 /-- C08 `t4_read_safe` for the regenerated `_read_ndef_data`: against EVERY card (APDU level) at most `7 + 65536` commands,
 never an exception, `None` or an object with `length <= capacity` and octets from the file -/
@@ -1072,18 +1110,14 @@ theorem gen_more_false_last (cmd : Bytes) (o miu pni : Nat) (hp : pni < 2) (ho :
 /-! ## non-vacuity -/
 
 example : Gen.Fn.iso_wtx_test [0xF2, 3] = .ok true ∧ Gen.Fn.iso_wtx_test [0xF2] = .ok false := by decide +kernel
+example : Gen.Fn.iso_wtx_step [0xF2, 60] 0 1000 = .error .protocol ∧ Gen.Fn.iso_wtx_step [0xF2, 59] 950 1000 = .error (.tagCmd 0)
+    ∧ Gen.Fn.iso_wtx_step [0xF2, 3] 10 1000 = .ok (3, 13) := by decide +kernel
 example : Gen.Fn.iso_iblock [1, 2, 3, 4, 5] 2 2 1 = .ok (true, [0x13], [0x13, 3, 4]) := by decide +kernel
 example : Gen.Fn.iso_iblock [1, 2, 3, 4, 5] 4 2 0 = .ok (false, [0x02], [0x02, 5]) := by decide +kernel
 example : Gen.Fn.iso_offsets [1, 2, 3, 4, 5] 2 = .ok [0, 2, 4] ∧ Gen.Fn.iso_offsets [1] 0 = .error .value := by decide +kernel
 example : Gen.Fn.iso_nak_on_timeout 3 2 1 = .error (.tagCmd 0) ∧ Gen.Fn.iso_nak_on_timeout 2 2 1 = .ok [0xB3] := by decide +kernel
 example : Gen.Fn.iso_latch_chk (some [1]) true (-2) = .error (.tagCmd (-2)) ∧ Gen.Fn.iso_latch_chk none true (-2) = .ok () := by
   decide +kernel
-/-- the regenerated initiator against the ISO/IEC 14443-4 card of C12: command chained in 3 blocks, response chained,
-S(WTX) before every card block, faults on the air -/
-example : (exchangeGen (isoPeer ⟨2, 1, 1, 1, 3, fun n c => c ++ [n, 0x90, 0]⟩) 20 { pni := 0, miu := 2, nNak := 5, nAck := 5 }
-    [1, 2, 3, 4, 5] ⟨Card.init, [.d, .l, .d, .c, .d, .d, .e], []⟩).2.2 = .ok [1, 2, 3, 4, 5, 0, 0x90, 0] := by decide +kernel
-example : C12.SessInv { pni := 0, miu := 2, nNak := 5, nAck := 5 } Card.init := C12.sess_init 0 0 5 |> fun _ => by
-  intro _; exact ⟨by decide, ⟨rfl, rfl⟩⟩
 example : planWriteGen ⟨15, 4, 100, true, true, 2, [0xE1, 4]⟩ [7, 8, 9]
     = .ok [⟨0, [0, 0, 7, 8]⟩, ⟨4, [9]⟩, ⟨0, [0, 3]⟩] := by decide +kernel
 example : planWriteGen ⟨15, 8, 100, true, true, 2, [0xE1, 4]⟩ [7, 8, 9] = .ok [⟨0, [0, 3, 7, 8, 9]⟩] := by decide +kernel
